@@ -9,6 +9,7 @@ mod c04;
 mod c05;
 mod c06;
 mod c07;
+mod c08;
 mod c09;
 mod c10;
 mod c11;
@@ -35,6 +36,7 @@ fn gen_all(id: &str, seed: u64, n: usize, thorough: bool) -> Vec<String> {
         "C09" => c09::gen_cases(seed, n, thorough),
         "C12" => c12::gen_cases(seed, n, thorough),
         "C04" => c04::gen_cases(seed, n, thorough),
+        "C08" => c08::gen_cases(seed, n, thorough),
         "C18" => c18::gen_cases(seed, n, thorough),
         "C05" => c05::gen_cases(seed, n, thorough),
         "C17" => c17::gen_cases(seed, n, thorough),
@@ -56,6 +58,7 @@ fn run_line(id: &str, line: &str) -> String {
         "C09" => c09::run_line(line),
         "C12" => c12::run_line(line),
         "C04" => c04::run_line(line),
+        "C08" => c08::run_line(line),
         "C18" => c18::run_line(line),
         "C05" => c05::run_line(line),
         "C17" => c17::run_line(line),
@@ -67,6 +70,59 @@ fn run_line(id: &str, line: &str) -> String {
         Ok(s) => s,
         Err(_) => "PANIC".to_string(),
     }
+}
+
+/// Run the cases in child processes (16 at a time), so that aborts and stack overflows are seen and attributed to the
+/// case that was running; a case that exceeds the time limit has its child killed.
+fn supervise(id: &str, cases: &[String]) -> Vec<String> {
+    use std::io::{BufRead, Write as _};
+    let nworkers = std::thread::available_parallelism().map(|x| x.get()).unwrap_or(4).min(16);
+    let limit = std::time::Duration::from_secs(std::env::var("VERIF_CASE_TIMEOUT").ok().and_then(|v| v.parse().ok()).unwrap_or(30));
+    let exe = std::env::current_exe().unwrap();
+    let next = std::sync::Arc::new(std::sync::atomic::AtomicUsize::new(0));
+    let cases: std::sync::Arc<Vec<String>> = std::sync::Arc::new(cases.to_vec());
+    let results = std::sync::Arc::new(std::sync::Mutex::new(vec![String::new(); cases.len()]));
+    let mut handles = Vec::new();
+    for _ in 0..nworkers {
+        let (next, cases, results, exe, id) = (next.clone(), cases.clone(), results.clone(), exe.clone(), id.to_string());
+        handles.push(std::thread::spawn(move || {
+            let spawn = || {
+                let mut c = std::process::Command::new(&exe).arg("child").arg(&id).stdin(std::process::Stdio::piped()).stdout(std::process::Stdio::piped()).stderr(std::process::Stdio::null()).spawn().unwrap();
+                let out = c.stdout.take().unwrap();
+                let (tx, rx) = std::sync::mpsc::channel::<Option<String>>();
+                std::thread::spawn(move || {
+                    let mut r = std::io::BufReader::new(out);
+                    loop {
+                        let mut l = String::new();
+                        match r.read_line(&mut l) { Ok(0) | Err(_) => { let _ = tx.send(None); break; } Ok(_) => { if tx.send(Some(l.trim_end().to_string())).is_err() { break; } } }
+                    }
+                });
+                (c, rx)
+            };
+            let (mut child, mut rx) = spawn();
+            loop {
+                let i = next.fetch_add(1, std::sync::atomic::Ordering::SeqCst);
+                if i >= cases.len() { break; }
+                let ok = { let sin = child.stdin.as_mut().unwrap(); writeln!(sin, "{}", cases[i]).is_ok() && sin.flush().is_ok() };
+                let r = if !ok { None } else { match rx.recv_timeout(limit) { Ok(Some(l)) => Some(l), Ok(None) => None, Err(_) => { let _ = child.kill(); Some("TIMEOUT".to_string()) } } };
+                let line = match r {
+                    Some(l) if l != "TIMEOUT" => l,
+                    other => {
+                        let status = child.wait().map(|s| format!("{}", s)).unwrap_or("?".into());
+                        let res = if other.is_some() { "TIMEOUT".to_string() } else { format!("ABORT {}", status) };
+                        let (c2, r2) = spawn();
+                        child = c2; rx = r2;
+                        res
+                    }
+                };
+                results.lock().unwrap()[i] = line;
+            }
+            let _ = child.kill();
+            let _ = child.wait();
+        }));
+    }
+    for h in handles { h.join().unwrap(); }
+    std::sync::Arc::try_unwrap(results).map(|m| m.into_inner().unwrap()).unwrap_or_default()
 }
 
 fn main() {
@@ -82,6 +138,32 @@ fn main() {
     }
     if args[1] == "ast" {
         println!("{}", c09::dump(&args[2]));
+        return;
+    }
+    if args[1] == "c08show" {
+        // the entry file of a C08 case (the words after the configuration)
+        let w: Vec<&str> = args[2..].iter().map(|s| s.as_str()).collect();
+        match c08::input_of(&w) { Some(i) => print!("{}", i.text), None => eprintln!("bad case") }
+        return;
+    }
+    if args[1] == "child" {
+        // one case per line on stdin, one result per line on stdout; the compilation runs on a thread with the
+        // default main-thread stack size (8 MiB), so what overflows here overflows in a user's program
+        common::quiet_panics();
+        let id = args[2].clone();
+        let stdin = std::io::stdin();
+        let mut line = String::new();
+        loop {
+            line.clear();
+            if stdin.read_line(&mut line).unwrap_or(0) == 0 { break; }
+            let l = line.trim_end().to_string();
+            let idc = id.clone();
+            let h = std::thread::Builder::new().stack_size(8 << 20).spawn(move || run_line(&idc, &l)).unwrap();
+            let r = h.join().unwrap_or_else(|_| "PANIC ?: escaped".to_string());
+            println!("{}", r.replace('\n', "\\n"));
+            use std::io::Write as _;
+            std::io::stdout().flush().unwrap();
+        }
         return;
     }
     if args[1] == "pgen" {
@@ -124,6 +206,13 @@ fn main() {
         "run" => std::fs::read_to_string(&cases_path).unwrap().lines().map(|s| s.to_string()).collect(),
         _ => { eprintln!("unknown mode"); std::process::exit(2); }
     };
+    if id == "C08" {
+        let results = supervise(id, &cases);
+        let mut f = std::io::BufWriter::new(std::fs::File::create(&impl_path).unwrap());
+        for l in results { writeln!(f, "{}", l).unwrap(); }
+        drop(f);
+        std::process::exit(0);
+    }
     // run in parallel over threads, keep order; every case gets a watchdog so a non-terminating case is reported
     // as TIMEOUT instead of hanging the run (its thread is abandoned and dies with the process)
     let nthreads = std::thread::available_parallelism().map(|x| x.get()).unwrap_or(4).min(16);
